@@ -7,6 +7,7 @@ import (
 	"go/types"
 	"math"
 	"math/big"
+	"math/rand"
 	"sort"
 	"strings"
 
@@ -14,13 +15,14 @@ import (
 )
 
 type Violation struct {
-	Msg    string
-	Pos    string
-	Vector []ReplayVal
-	HasVec bool
-	Trace  []string
-	Kind   string // ASSERT | PANIC | DEADLOCK | FORBIDDEN
-	state  *State
+	Msg          string
+	Pos          string
+	Vector       []ReplayVal
+	HasVec       bool
+	Trace        []string
+	Kind         string // ASSERT | PANIC | DEADLOCK | FORBIDDEN
+	RandomSelect bool   // the failing path ran a select with several ready cases (native replay must retry)
+	state        *State
 }
 
 type ReplayVal struct {
@@ -49,20 +51,28 @@ type Engine struct {
 	MaxForks     int
 
 	Paths, Asserts, Discharged, Trivial, Unknown, Blocked, Aborts, FreeForks, PathsAsserting int
-	FuncsSeen                                                     map[string]bool
-	ModelsUsed                                                    map[string]bool
-	Assumptions                                                   map[string]bool
-	AssertSites                                                   map[string]int // position -> times reached
-	Violations                                                    []*Violation
-	Notes                                                         []string
-	Samples                                                       []string
-	Fixed                                                         []ReplayVal // concrete re-execution: values for the nondets, in order
-	fixedMode                                                     bool
-	blockedOK                                                     bool
-	sents                                                         map[string]*IfaceV
-	lastAlloc                                                     *Term
-	crcMemo     map[string]*Term
-	reMemo      map[string]*Term
+	FuncsSeen                                                                                map[string]bool
+	ModelsUsed                                                                               map[string]bool
+	Assumptions                                                                              map[string]bool
+	AssertSites                                                                              map[string]int // position -> times reached
+	Violations                                                                               []*Violation
+	Notes                                                                                    []string
+	Samples                                                                                  []string
+	Fixed                                                                                    []ReplayVal // concrete re-execution: values for the nondets, in order
+	fixedMode                                                                                bool
+	blockedOK                                                                                bool
+	sents                                                                                    map[string]*IfaceV
+	lastAlloc                                                                                *Term
+	crcMemo                                                                                  map[string]*Term
+	reMemo                                                                                   map[string]*Term
+
+	// witness sampling (translation validation of complete paths against the native build)
+	WitnessK               int
+	witRng                 *rand.Rand
+	Finished               int
+	witStates              []*State
+	witAbstract            []*State
+	finNative, finAbstract int
 }
 
 func (e *Engine) note(format string, a ...interface{}) {
@@ -1304,6 +1314,7 @@ func (e *Engine) doReturn(st *State, res Value) bool {
 	fr := st.fr
 	if fr.caller == nil {
 		if st.cur == 0 {
+			st.finished = true
 			return false // harness (main thread) finished
 		}
 		st.threads[st.cur].done = true
@@ -1320,7 +1331,7 @@ func (e *Engine) doReturn(st *State, res Value) bool {
 }
 
 func (e *Engine) violation(st *State, kind, msg string) {
-	v := &Violation{Msg: msg, Kind: kind, state: st}
+	v := &Violation{Msg: msg, Kind: kind, state: st, RandomSelect: st.randomSelect}
 	v.Trace = append([]string(nil), st.trace...)
 	if vec, ok := e.modelVector(st); ok {
 		v.Vector, v.HasVec = vec, true
@@ -1788,6 +1799,9 @@ func (e *Engine) runPath(st *State) {
 			if st.sawAssert {
 				e.PathsAsserting++
 			}
+			if st.finished {
+				e.offerWitness(st)
+			}
 			return
 		}
 		if st.blockedNow {
@@ -1809,4 +1823,74 @@ func sortedKeys(m map[string]bool) []string {
 	}
 	sort.Strings(out)
 	return out
+}
+
+// offerWitness keeps two uniform samples (reservoirs, seeded) of the paths on which the harness ran
+// to its end: paths the native build can be steered along, and paths that depend on a library
+// model's own choices (see nativeObstacle). Their models are later executed against the real code
+// (witness.go).
+func (e *Engine) offerWitness(st *State) {
+	e.Finished++
+	if e.fixedMode || e.WitnessK <= 0 {
+		return
+	}
+	res, n, k := &e.witStates, &e.finNative, e.WitnessK
+	if e.nativeObstacle(st) != "" {
+		res, n, k = &e.witAbstract, &e.finAbstract, 2
+	}
+	*n++
+	if len(*res) < k {
+		*res = append(*res, st)
+		return
+	}
+	if j := e.witRng.Intn(*n); j < k {
+		(*res)[j] = st
+	}
+}
+
+// nativeObstacle explains why the native build cannot be steered along this path: the path
+// condition mentions a variable that is not one of the harness's nondets (an uninterpreted CRC
+// value, a declared regexp/bloom answer, opaque JSON bytes), or a library model forked on its
+// own outcome. "" = every choice on the path is a harness nondet, so the vector determines the
+// native run completely.
+func (e *Engine) nativeObstacle(st *State) string {
+	if st.abstract != "" {
+		return st.abstract
+	}
+	if st.randomSelect {
+		return "a select with several ready cases was executed: Go picks among them at random, the input vector does not determine the native run"
+	}
+	own := map[int]bool{}
+	for _, n := range st.nondets {
+		own[n.T.id] = true
+		if n.Arr != nil {
+			own[n.Arr.id] = true
+		}
+	}
+	seen := map[int]bool{}
+	var walk func(t *Term) string
+	walk = func(t *Term) string {
+		if seen[t.id] || t.maxVar == 0 {
+			return ""
+		}
+		seen[t.id] = true
+		if t.op == "var" {
+			if !own[t.id] {
+				return t.name
+			}
+			return ""
+		}
+		for _, a := range t.args {
+			if r := walk(a); r != "" {
+				return r
+			}
+		}
+		return ""
+	}
+	for _, c := range st.pc {
+		if r := walk(c); r != "" {
+			return "path condition depends on a value chosen inside a library model (" + r + ")"
+		}
+	}
+	return ""
 }
